@@ -191,6 +191,10 @@ def run_unit(unit, progress):
         elif i % 10 == 3:
             prog = gen.revisit_program(random.Random(cs))
             inc("revisit_programs")
+        elif i % 10 == 8:
+            # an override with the very value already in force, in a task awaited by two parents
+            prog = gen.sameval_program(random.Random(cs))
+            inc("programs_overriding_with_the_value_already_in_force")
         elif i % 10 == 6:
             # overrides with non-lexical lifetimes: the one that is left is not the most recently entered one
             prog = gen.overlap_program(random.Random(cs))
